@@ -115,6 +115,68 @@ func runC09(r *core.Run) {
 			sub.Extra["B_words"] = len(bs)
 		}
 	}
+	// (1b) raw-token documents against complete constructs, both ways round: something left open in one block (a stray
+	// backtick, bracket, delimiter, quote, fence-like run) must not change a well-formed construct in another block
+	constructs := []string{"`a`", "``a`b``", "*a*", "**a**", "_a_", "[a](b)", "[a](b \"c\")", "![a](b)", "<http://a.bc>", "<b>x</b>", "&amp;", "\\*a\\*", "a  \nb", "a\\\nb",
+		"- a\n- b", "1. a\n2. b", "> a", "```\na\n```", "~~~\na\n~~~", "    a", "a\n===", "a\n---", "***", "# a #", "- a\n\n  b", "> - a\n> - b", "<div>\na\n</div>", "a `b` *c* [d](e)"}
+	gfmConstructs := append(append([]string{}, constructs...), "~~a~~", "|a|b|\n|-|-|\n|c|d|", "- [ ] a\n- [x] b", "www.a.bc", "http://a.bc/d", "a@b.cd")
+	rawToks := core.Union(core.ABlock, []string{"[", "]", "(", "_", "<", "\\", "\"", "'", "&", "|", ":"})
+	for _, cn := range []string{"core+unsafe", "gfm"} {
+		cfg := core.MustCfg(cn)
+		cons := constructs
+		if cn == "gfm" {
+			cons = gfmConstructs
+		}
+		var bs [][2][]byte
+		{
+			cv := core.NewConv(cfg)
+			for _, c := range cons {
+				out, _, _ := cv.Convert([]byte(c))
+				bs = append(bs, [2][]byte{[]byte(c), append([]byte{}, out...)})
+			}
+		}
+		n := core.Pick(r, 3, 4)
+		sub := wordsSub(r, "raw-vs-constructs/"+cn,
+			fmt.Sprintf("W = the word over raw tokens, K = each of %d complete constructs %q: R(W ⏎⏎ '# h' ⏎⏎ K) == R(W) + heading + R(K) (W skipped when it ends in an open code/HTML block) and R(K ⏎⏎ '# h' ⏎⏎ W) == R(K) + heading + R(W) (K skipped likewise), under %s", len(cons), cons, cn),
+			rawToks, n, func(s *core.Sub, w int) func([]byte) uint64 {
+				cv := core.NewConv(cfg)
+				var scratch, rw []byte
+				openK := make([]int8, len(bs))
+				return func(wd []byte) uint64 {
+					if bytes.IndexByte(wd, '[') >= 0 && bytes.IndexByte(wd, ']') >= 0 && bytes.IndexByte(wd, ':') >= 0 {
+						return 0 // could be a reference definition: the statement excludes link reference syntax in the raw part
+					}
+					doc, pan := cv.Parse(wd)
+					if pan != nil || doc == nil {
+						return 0
+					}
+					wOpen := endsInOpenRawBlock(doc)
+					out, ok := mustConvert(s, cv, wd)
+					if !ok {
+						return 0
+					}
+					rw = append(rw[:0], out...)
+					for i, b := range bs {
+						if !wOpen {
+							c09PairCase(s, cv, wd, rw, b[0], b[1], &scratch)
+							s.Evals.Add(1)
+						}
+						if openK[i] == 0 {
+							openK[i] = 1
+							if d, _ := cv.Parse(b[0]); d != nil && endsInOpenRawBlock(d) {
+								openK[i] = 2
+							}
+						}
+						if openK[i] == 1 {
+							c09PairCase(s, cv, b[0], b[1], wd, rw, &scratch)
+							s.Evals.Add(1)
+						}
+					}
+					return core.Hash(rw)
+				}
+			})
+		sub.Extra["constructs"] = len(cons)
+	}
 	// (2) reference definitions are position independent
 	dtoks := []string{"a", " ", "\n", "[foo]", "[FOO][]", "[x][ foo ]", "![Foo]", "*", "> ", "- ", "#", "[b][Bar]", "`"}
 	defsets := []string{
